@@ -45,7 +45,9 @@ var InitStd = map[string]bool{
 	"unicode/utf16": true, "text/unicode/norm": false, "math/rand": false,
 	"internal/bytealg": false, "internal/itoa": true, "internal/godebug": false,
 	"golang.org/x/text/encoding": true, "golang.org/x/text/transform": true,
-	"golang.org/x/text/encoding/unicode": false,
+	"golang.org/x/text/encoding/unicode": true, "golang.org/x/text/encoding/internal": true,
+	"golang.org/x/text/encoding/internal/identifier": true, "golang.org/x/text/internal/utf8internal": true,
+	"golang.org/x/text/runes": true,
 }
 
 func wantInit(path string) bool {
